@@ -49,15 +49,16 @@ def filter_kwargs_conformance():
             failures.append('has_kwargs(%s) = %s' % (f.__name__, util.has_kwargs(f)))
         for r in range(len(keys) + 1):
             for sub in itertools.combinations(keys, r):
-                K = {k: 10 + i for i, k in enumerate(sub)}
-                want = f(1, 2, **(K if has_kw else {k: v for k, v in K.items() if k in names}))
-                try:
-                    got = util.filter_kwargs(f, 1, 2, **K)
-                except Exception as ex:
-                    got = ('raise', type(ex).__name__)
-                n += 1
-                if got != want:
-                    failures.append('filter_kwargs(%s, 1, 2, **%s) = %r, contract says %r' % (f.__name__, K, got, want))
+                # truthy values, and values that are false in a boolean context (an explicit False / 0 / None is still passed on)
+                for K in ({k: 10 + i for i, k in enumerate(sub)}, {k: [False, 0, None, 0.0][i % 4] for i, k in enumerate(sub)}):
+                    want = f(1, 2, **(K if has_kw else {k: v for k, v in K.items() if k in names}))
+                    try:
+                        got = util.filter_kwargs(f, 1, 2, **K)
+                    except Exception as ex:
+                        got = ('raise', type(ex).__name__)
+                    n += 1
+                    if repr(got) != repr(want):
+                        failures.append('filter_kwargs(%s, 1, 2, **%s) = %r, contract says %r' % (f.__name__, K, got, want))
     return n, failures
 
 
@@ -65,7 +66,7 @@ def run(tier, seed, results, tasks=None, prop='C03'):
     out = []
     t0 = time.time()
     n, failures = filter_kwargs_conformance()
-    out.append(dict(name='util.filter_kwargs / has_kwargs conform to the contract E4 assumes', bound='7 callees (4 shapes, 2 sharing a __name__, 1 wrapped by @util.deprecated) x all 16 subsets of 4 keyword names, called in sequence in one process',
+    out.append(dict(name='util.filter_kwargs / has_kwargs conform to the contract E4 assumes', bound='7 callees (4 shapes, 2 sharing a __name__, 1 wrapped by @util.deprecated) x all 16 subsets of 4 keyword names x {truthy, falsy} values, called in sequence in one process',
                     cases=n, exhaustive=True, failures=failures[:5], wall_s=round(time.time() - t0, 2)))
     if failures:
         results.append(dict(kind='engine', engine='bundles', name='util.filter_kwargs', status='ok', detail='', paths=0, inlined=[], used_contracts=[],
